@@ -271,7 +271,12 @@ def direct_dual_history(rng, keys):
     dim = rng.choice([1, 2, 3])
     spec = {"kind": "euclid", "dim": dim, "tuple_conv": False, "metric": {"type": "identity"},
             "target": zoo.quartic_from_seed(rng, dim, scale=rng.choice([0.1, 1.0, 30.0]))}
-    system, _ = zoo.build_system(spec)
+    restricted = rng.random() < 0.35
+    if restricted:
+        # restricted support: energies beyond a bound are NaN (no error raised), so trial steps of the
+        # initial step-size search can produce NaN energy changes; the bound is set per chain below
+        spec["target"]["nan_beyond"] = 1e9
+    system, model = zoo.build_system(spec)
     integ = mici.integrators.LeapfrogIntegrator(system, None)
     trans = _T(system, integ)
     red = rng.choice(["arith", "geom", "min"])
@@ -289,6 +294,9 @@ def direct_dual_history(rng, keys):
         g = np.random.default_rng(rng.getrandbits(40))
         cs = ChainState(pos=g.standard_normal(dim), mom=None, dir=1)
         cs.mom = system.sample_momentum(cs, g)
+        if restricted:
+            cs.mom[0] = abs(cs.mom[0]) + 0.3  # heading towards the boundary
+            model.nan_beyond = float(cs.pos[0]) + rng.choice([0.2, 0.6, 1.5, 4.0])
         try:
             st = adapter.initialize(cs, trans)
         except mici.errors.AdaptationError:
